@@ -2,6 +2,7 @@ use crate::common::{Tier, Violation};
 use serde_json::Value;
 
 pub mod c06;
+pub mod c07;
 pub mod c01;
 pub mod c04;
 pub mod c20;
@@ -24,6 +25,7 @@ pub mod c17;
 pub fn run(id: &str, tier: Tier) -> i32 {
     match id {
         "C06" => c06::run(tier),
+        "C07" => c07::run(tier),
         "C01" => c01::run(tier),
         "C04" => c04::run(tier),
         "C20" => c20::run(tier),
@@ -54,6 +56,7 @@ pub fn replay(id: &str, v: &Value) -> i32 {
     let case = &v["case"];
     let f: fn(&Value) -> Option<Violation> = match id {
         "C06" => c06::replay_case,
+        "C07" => c07::replay_case,
         "C01" => c01::replay_case,
         "C04" => c04::replay_case,
         "C20" => c20::replay_case,
